@@ -7,13 +7,14 @@ META = dict(
                'exactly once when it applies and not at all otherwise (so answers are a function of file, seed and query history), and the drawn '
                'value comes from the [min value, max value) pair configured for the requested composition. World::parse_entries reseeds '
                'the engine with (entry + MPI rank) for every "random number seed" entry >= 0, zero included, exactly once, and leaves it as '
-               'constructed for a negative entry.',
+               'constructed for a negative entry; World::World seeds the engine with its seed argument (modulo 2^32) before the file is parsed and hands the '
+               'other arguments to Parameters::initialize unchanged.',
     level_note='Trusted: translator, shims (std::uniform_real_distribution draw is a stub: advances the engine, result in [a,b); mt19937::seed(s) sets the state to an '
                'uninterpreted function of s), CBMC. Assumed, unchecked: entry + MPI rank does not overflow int (signed overflow for entry INT_MAX on rank >= 1). '
-               'Seeding in the World constructor from its argument is not under contract.',
-    scope='ContinentalPlateModels::Composition::Random::get_composition (the only random composition model in the code base); World::parse_entries (seed entry)',
+               '',
+    scope='ContinentalPlateModels::Composition::Random::get_composition (the only random composition model in the code base); World::parse_entries (seed entry); World::World (constructor seed)',
     not_covered=['fixed / normalised grain sizes of the uniform grains model are under contract in C05 (units *_G_uniform: sizes as given, or 1/number of grains each)', 'random uniform grain distributions: orthonormality and determinant of the rotation matrices, normalised sizes summing to one (floating-point products/quotients)',
-                 'engine seeding from the constructor argument', '"different seeds give different draws" (a statement about mt19937)'],
+                 '"different seeds give different draws" (a statement about mt19937)'],
     enforced_elsewhere={},
 )
 UNITS = []
@@ -58,6 +59,13 @@ WORLD_PARSE = dict(
               (r'Point2_op_sub\(&this_->cross_section.data\[wb_idx\(\(\(unsigned long\)0\), this_->cross_section.n\)\], &this_->cross_section.data\[wb_idx\(\(\(unsigned long\)1\), this_->cross_section.n\)\]\)',
                'Point2_op_sub(&this_->cross_section.data[wb_idx(((unsigned long)1), this_->cross_section.n)], &this_->cross_section.data[wb_idx(((unsigned long)0), this_->cross_section.n)])', 'cross-section direction reversed')])
 UNITS.append(WORLD_PARSE)
+UNITS.append(dict(
+    name='world_ctor', enforce='World_ctor', contracts='c15_world_ctor.c', harness='h_world_ctor',
+    targets=[dict(tu='source/world_builder/world.cc', qual='WorldBuilder::World::World', cname='World_ctor')],
+    stub_prefixes=['Parameters_'], stub=['World_parse_entries', 'World_declare_entries'],
+    replace=['Parameters_ctor', 'World_declare_entries', 'Parameters_initialize', 'World_parse_entries'],
+    outline_fp='all', unwind_complete=3, defines={'WB_VEC_CAP': 2}, expect_fail=['REACHABILITY-GUARD'],
+    canaries=[(r'wb_mt19937_ctor\(random_number_seed\)', 'wb_mt19937_ctor(random_number_seed + 1ul)', 'engine seeded with seed + 1')]))
 
 
 def native_oracle(witness, work, search_seed=None):
